@@ -374,6 +374,8 @@ def oracle(case, res):
         out.append(('handler-raised', res['error']))
     pre = EMPTY
     finished = set()
+    made_by = {}          # cleanup link -> what created it (the known double link pairs _terminate's container-named link
+                          # with the instance-named one of _synchronize / the monitor; any other origin is something else)
     for t, (mop, post) in enumerate(zip(res['mops'], res['obs'])):
         where = 'after op %d (%s)' % (t, case['ops'][t]['op'])
         lpre, lpost = _links(pre), _links(post)
@@ -383,12 +385,19 @@ def oracle(case, res):
                   'ready_down': '_on_deleted', 'dot': 'dot-event'}[pre['queue'][0][0]]
             if pre['queue'][0][0] == 'ready_up' and not pre['active']:
                 by = '_synchronize'
+        for ck, ls in lpost.items():
+            for l in ls:
+                if l.startswith('cleanup/') and l not in lpre.get(ck, []):
+                    made_by[l] = by
         # P1: at most one link per container
         for ck, ls in sorted(lpost.items()):
             if len(ls) > 1 and len(lpre.get(ck, [])) <= 1:
                 kinds = sorted(l.split('/')[0] + '/' + l.split('/')[1][0] for l in ls)
                 if kinds == ['cleanup/c', 'cleanup/i']:
                     sig = 'two-cleanup-links-container-name-vs-instance-name'
+                    cl = [l for l in ls if l.startswith('cleanup/c')][0]
+                    if made_by.get(cl) not in (None, '_on_deleted', 'del', '_synchronize', '_first_sync'):   # callers of _terminate
+                        sig += ':container-named-link-made-by-' + str(made_by.get(cl))
                 elif any(l.startswith('running/') for l in ls):
                     sig = 'container-running-and-in-cleanup:by-' + by
                 else:
